@@ -91,7 +91,7 @@ def long_cases(ctx, n):
 
 
 def signature(tr, mask):
-    if tr.get("variant") == "mixed" and mask & ~(8 | 16):
+    if tr.get("variant") in ("mixed", "mixedstr") and mask & ~(8 | 16):
         return "mixed-symbols"          # an alphabet holding strings and ints: one class whatever functions fail
     return "+".join(n for b, n in sorted(CLAUSES.items()) if mask & b)
 
@@ -170,7 +170,7 @@ def run(ctx):
     design(ctx, 3, 2, [UNIT, (2, 1, 3)], label="alphabet=3 len<=2")
     design(ctx, 2, 2, [UNIT], legacy=True, expect_violation="SubstringExact", label="Legacy=TRUE (self-test)")
     groups = [("str", a, n, costs, 1.0), ("int", a, n, [UNIT, (1, 2, 3)], 1.0), ("mixed", a, n, [UNIT, (2, 1, 3)], 1.0),
-              ("bigstr", a, n, [UNIT, (3, 2, 1)], 0.5), ("bigint", a, n, [UNIT, (1, 3, 2)], 0.5), ("str", 3, 2, [UNIT, (2, 1, 3)], 1.0)]
+              ("mixedstr", a, n, [UNIT], 1.0), ("bigstr", a, n, [UNIT, (3, 2, 1)], 0.5), ("bigint", a, n, [UNIT, (1, 3, 2)], 0.5), ("str", 3, 2, [UNIT, (2, 1, 3)], 1.0)]
     if not quick:
         more = [UNIT, (2, 1, 3), (1, 3, 2), (3, 2, 1)]
         design(ctx, 3, 4, [UNIT], label="alphabet=3 len<=4 unit costs")
